@@ -638,9 +638,10 @@ class StoreCache(CacheMixin):
 
     def __init__(self, store, path, flat=False):
         self.storage = store
-        self.path = path
-        if not self.storage.is_dir(path):
-            self.storage.makedir(path)
+        # entries are filed under the path without a leading slash (see to_path); keys() and clean() have to look there too
+        self.path = path[1:] if isinstance(path, str) and path.startswith("/") else path
+        if not self.storage.is_dir(self.path):
+            self.storage.makedir(self.path)
         self.flat = flat
 
     @classmethod
